@@ -400,10 +400,18 @@ def main(argv):
         tok_sm, binary_sm = S.prepare(c)
         if binary_sm is not None:
             keep = dict(c.coverage)
-            S.run_scenarios(c, binary_sm, "c03sm", ["c08_finalize"], lambda name, evs, fl: name)
+            # ... and "contiguous increasing heights under restarts": after a restart on the same stores the real state
+            # machine resumes in the height / round the stores prescribe (c10_sm_resume: never re-enters a height whose
+            # finalization is stored), on model-walked histories with Stop/Start events and on the scripted ones
+            clauses_sm = ["c08_finalize", "c10_sm_resume"]
+            n_sm, steps_sm = (24, 40) if c.tier == "quick" else (200, 60)
+            S.walked(c, "C03", binary_sm, "c03sm", n_sm, steps_sm, clauses_sm, lambda name, evs, fl: name)
+            wk = {k: c.coverage[k] for k in ("evaluations", "traces", "event_distribution") if k in c.coverage}
+            S.run_scenarios(c, binary_sm, "c03sm", clauses_sm, lambda name, evs, fl: name)
             sc = c.coverage.get("scripted_histories")
             c.coverage.update(keep)
             c.coverage["state_machine_scripted_histories"] = sc
+            c.coverage["state_machine_walked_histories"] = wk
     if not c.replay or "batch_seed" in json.load(open(c.replay)):
         import mirrorlib
         mirrorlib.mirror_check(c, "C03", ["c01", "c06"], "C03 composition hypotheses along mirror histories", quick=(24, 40),
